@@ -57,6 +57,7 @@ private:
     friend class ::tst_QXmppStream;
 
     QString m_dataBuffer;
+    QByteArray m_undecodedBytes;
     bool m_directTls = false;
     QSslSocket *m_socket = nullptr;
 
